@@ -100,10 +100,68 @@ open Gkv.Machine Gkv.MachineR in
     revert — the store shows exactly what the specification shows, where the specification keeps
     the STACK of completed flushes: Flush pushes, FlushRevert pops and makes the new top (or the
     empty store) current.  Side conditions `RHistOK`: those of C02 plus, at the moment of each
-    revert, no key/value bytes forge a complete self-consistent root record (the property's own
-    exclusion). -/
-theorem history_refinement (cmpOf : Bytes → CmpKind) (ops : List ROp) (h : RHistOK cmpOf ops) :
+    revert, no key/value bytes forge a complete self-consistent root record.
+
+    PARTIAL.  C03 excludes such bytes in so many words; C08 does not — it quantifies over all
+    histories, and a history may store any value.  Without the exclusion the statement is false,
+    of the model and of the package: `history_refinement_fails_on_forged_root` below (finding F17). -/
+theorem history_refinement_partial (cmpOf : Bytes → CmpKind) (ops : List ROp) (h : RHistOK cmpOf ops) :
     absS (rrun cmpOf ops) = (rspecRun cmpOf ops).cur := rrefinement cmpOf ops h
+
+/-! ### C08 at full strength is false: a value can forge a root record (finding F17) -/
+
+open Gkv.Machine Gkv.MachineR in
+/-- the side conditions of `RHistOK` that are limits of the format (plain names, items and file
+    below 4 GiB, fewer than 2^32 operations) — everything except "no forged root record" -/
+def RLimitsOK (cmpOf : Bytes → CmpKind) (ops : List ROp) : Prop :=
+  (∀ op ∈ ops, ROpOK op) ∧ (∀ k, (rrun cmpOf (ops.take k)).size < 2^32) ∧ ops.length < 2^32
+
+/-- a value that is a complete root record — one collection `x`, empty — whose trailer names the
+    offset the value will be written at by the second flush of `forgedHist` (135 + 16 + 1) -/
+def forgedVal : Bytes := encRoot 152 [([120], none)]
+
+open Gkv.Machine Gkv.MachineR in
+def forgedHist : List ROp :=
+  [.base (.setColl [97]), .base (.set [97] ⟨[1], [1], 1⟩), .base .flush,
+   .base (.set [97] ⟨[2], forgedVal, 2⟩), .base .flush, .revert]
+
+open Gkv.Machine Gkv.MachineR in
+theorem forgedHist_within_limits : RLimitsOK (fun _ => .bytes) forgedHist := by
+  refine ⟨?_, ?_, by decide⟩
+  · intro op hop
+    simp only [forgedHist, List.mem_cons, List.not_mem_nil, or_false] at hop
+    rcases hop with rfl | rfl | rfl | rfl | rfl | rfl
+    · show PlainName [97]; intro c hc; simp at hc; subst hc; decide
+    · show ItemOK _; unfold ItemOK itemHdrLen; decide
+    · trivial
+    · show ItemOK _; unfold ItemOK itemHdrLen; decide +kernel
+    · trivial
+    · trivial
+  · intro k
+    by_cases hk : k < 7
+    · have : ∀ k, k < 7 → (rrun (fun _ => .bytes) (forgedHist.take k)).size < 2^32 := by decide +kernel
+      exact this k hk
+    · have : forgedHist.take k = forgedHist := List.take_of_length_le (by simp [forgedHist]; omega)
+      rw [this]; decide +kernel
+
+open Gkv.Machine Gkv.MachineR in
+/-- after `forgedHist` the store shows a collection `x` and has lost `a`; the specification — the
+    state of the first flush — shows `a` with its item.  Replayed on the package:
+    corpus/F17-forged-root-in-value.ops (same outcome). -/
+theorem forged_root_misleads_revert :
+    absS (rrun (fun _ => .bytes) forgedHist) = [([120], [])] ∧
+    (rspecRun (fun _ => .bytes) forgedHist).cur = [([97], [⟨[1], [1], 1⟩])] := by
+  decide +kernel
+
+open Gkv.Machine Gkv.MachineR in
+/-- C08 for every history within the format's limits is FALSE -/
+theorem history_refinement_fails_on_forged_root :
+    ¬ ∀ ops, RLimitsOK (fun _ => .bytes) ops →
+        absS (rrun (fun _ => .bytes) ops) = (rspecRun (fun _ => .bytes) ops).cur := by
+  intro h
+  have e := h forgedHist forgedHist_within_limits
+  rw [forged_root_misleads_revert.1, forged_root_misleads_revert.2] at e
+  exact absurd e (by decide)
 
 open Gkv.Machine Gkv.MachineR in
 /-- repeated reverts walk back one Flush at a time, to the empty store past the first one -/
